@@ -447,7 +447,41 @@ def mk_ite(c, a, b):
                 a = a2
                 if a == b:
                     return a
+    if c[0] == "or":
+        # De Morgan: one canonical spelling for conditions that are disjunctions
+        return mk_ite(("and", tuple(mk_not(x) for x in c[1])), b, a)
+    if c[0] == "cmp" and c[1] == "is" and NONE in (c[2], c[3]) and a == NONE and b[0] == "ite":
+        # None if x is None else (x if B else X): where x is None the result IS x
+        x = c[3] if c[2] == NONE else c[2]
+        if b[2] == x:
+            return mk_ite(_mk_and(mk_not(c), mk_not(b[1])), b[3], x)
+        if b[3] == x:
+            return mk_ite(_mk_and(mk_not(c), b[1]), b[2], x)
+    # a nested conditional that shares a branch with the outer one is a single conditional on a conjunction:
+    #   (P if b else Q) if a else P  ==  Q if (a and not b) else P        (and the three symmetric forms)
+    if a[0] == "ite" and b[0] != "ite":
+        if a[2] == b:
+            return mk_ite(_mk_and(c, mk_not(a[1])), a[3], b)
+        if a[3] == b:
+            return mk_ite(_mk_and(c, a[1]), a[2], b)
+    if b[0] == "ite" and a[0] != "ite":
+        if b[2] == a:
+            return mk_ite(_mk_and(mk_not(c), mk_not(b[1])), b[3], a)
+        if b[3] == a:
+            return mk_ite(_mk_and(mk_not(c), b[1]), b[2], a)
     return ("ite", c, a, b)
+
+
+def _mk_and(x, y):
+    items = []
+    for t in (x, y):
+        items.extend(t[1] if t[0] == "and" else [t])
+    if any(t == FALSE for t in items):
+        return FALSE
+    items = [t for t in items if t != TRUE]
+    if not items:
+        return TRUE
+    return items[0] if len(items) == 1 else ("and", tuple(items))
 
 
 # ------------------------------------------------------------ projections / indexing
@@ -790,6 +824,8 @@ def norm_call(f, args, kwargs, prog: Program | None = None):
             x_ = kwargs["x"]
             return norm_call(("ext", "jax.numpy.where"), (), {"condition": mk_cmp(">=", x_, C(0)), "x": x_,
                                                                "y": mk_mul((a_, x_))}, prog)
+        if q == "flowjax.utils.arraylike_to_array" and kwargs.get("dtype") == C(None):
+            kwargs = {k: v for k, v in kwargs.items() if k != "dtype"}  # forwarded to jnp.asarray, whose default it is
         if q == "equinox.filter_vmap":
             dflt = ("call", ("ext", "equinox.if_array"), (C(0),), ())
             dflt2 = ("call", ("ext", "equinox.if_array"), (), (("axis", C(0)),))
@@ -1042,6 +1078,30 @@ def _match_to_if(st: ast.Match, tmp: str):
                 return ast.Constant(value=True), binds
             t, b = test(pat.pattern)
             return t, b + binds
+        if isinstance(pat, ast.MatchSequence) and not any(isinstance(e, ast.MatchStar) for e in pat.patterns):
+            n = len(pat.patterns)
+            subj_src = st.subject
+            if isinstance(subj_src, ast.Attribute) and subj_src.attr == "shape":
+                # a shape is a tuple: the sequence test is its length, spelled as the owner's ndim
+                tests = [ast.Compare(left=ast.Attribute(value=subj_src.value, attr="ndim", ctx=ast.Load()), ops=[ast.Eq()],
+                                     comparators=[ast.Constant(value=n)])]
+            else:
+                tests = [ast.Call(func=ast.Name(id="isinstance", ctx=ast.Load()),
+                                  args=[subj, ast.Tuple(elts=[ast.Name(id="tuple", ctx=ast.Load()),
+                                                              ast.Name(id="list", ctx=ast.Load())], ctx=ast.Load())], keywords=[]),
+                         ast.Compare(left=ast.Call(func=ast.Name(id="len", ctx=ast.Load()), args=[subj], keywords=[]),
+                                     ops=[ast.Eq()], comparators=[ast.Constant(value=n)])]
+            binds = []
+            for i, e in enumerate(pat.patterns):
+                elem = ast.Subscript(value=subj, slice=ast.Constant(value=i), ctx=ast.Load())
+                if isinstance(e, ast.MatchAs) and e.pattern is None:
+                    if e.name:
+                        binds.append(ast.Assign(targets=[ast.Name(id=e.name, ctx=ast.Store())], value=elem, lineno=st.lineno))
+                elif isinstance(e, ast.MatchValue):
+                    tests.append(ast.Compare(left=elem, ops=[ast.Eq()], comparators=[e.value]))
+                else:
+                    raise AnalysisError("match: nested sequence element pattern is not modelled")
+            return (tests[0] if len(tests) == 1 else ast.BoolOp(op=ast.And(), values=tests)), binds
         if isinstance(pat, ast.MatchOr):
             parts = [test(p_) for p_ in pat.patterns]
             if any(b for _, b in parts):
@@ -1054,8 +1114,19 @@ def _match_to_if(st: ast.Match, tmp: str):
         t, binds = test(case.pattern)
         if case.guard is not None:
             if binds:
-                raise AnalysisError("match: guard on a capturing pattern is not modelled")
-            t = ast.BoolOp(op=ast.And(), values=[t, case.guard])
+                # substitute the captured names in the guard by what they are bound to
+                import copy
+                bmap = {b.targets[0].id: b.value for b in binds}
+
+                class _Sub(ast.NodeTransformer):
+                    def visit_Name(self, node):
+                        if isinstance(node.ctx, ast.Load) and node.id in bmap:
+                            return copy.deepcopy(bmap[node.id])
+                        return node
+                g = _Sub().visit(copy.deepcopy(case.guard))
+            else:
+                g = case.guard
+            t = ast.BoolOp(op=ast.And(), values=[t, g])
         body = binds + list(case.body)
         if isinstance(t, ast.Constant) and t.value is True:
             node = body
@@ -1231,7 +1302,56 @@ class Interp:
             val = self.call(d, [val], {}, mctx)
         return self.call(val, list(args), kwargs, ctx)
 
+    _GEN_CACHE: dict = {}
+
+    @classmethod
+    def _degenerate(cls, fn):
+        """A generator function consumed eagerly is the list of what it yields: `yield v` -> `__gen.append(v)`,
+        with `__gen = []` first and `return __gen` last (generators with `return value` / `yield from` are left)."""
+        if not isinstance(fn, ast.FunctionDef):
+            return fn
+        k = id(fn)
+        if k in cls._GEN_CACHE:
+            return cls._GEN_CACHE[k]
+        own = []
+        stack = list(fn.body)
+        while stack:
+            n = stack.pop()
+            if isinstance(n, (ast.FunctionDef, ast.Lambda, ast.ClassDef)):
+                continue
+            if isinstance(n, (ast.Yield, ast.YieldFrom)):
+                own.append(n)
+            stack.extend(ast.iter_child_nodes(n))
+        if not own or any(isinstance(n, ast.YieldFrom) for n in own) or any(
+                isinstance(n, ast.Return) and n.value is not None for n in ast.walk(fn)):
+            cls._GEN_CACHE[k] = fn
+            return fn
+        import copy
+        new = copy.deepcopy(fn)
+
+        class Y(ast.NodeTransformer):
+            def visit_FunctionDef(self, node):
+                return node if node is not new else self.generic_visit(node)
+
+            def visit_Lambda(self, node):
+                return node
+
+            def visit_Expr(self, node):
+                if isinstance(node.value, ast.Yield):
+                    v = node.value.value or ast.Constant(value=None)
+                    return ast.copy_location(ast.Expr(value=ast.Call(
+                        func=ast.Attribute(value=ast.Name(id="__gen", ctx=ast.Load()), attr="append", ctx=ast.Load()),
+                        args=[v], keywords=[])), node)
+                return node
+        new = Y().visit(new)
+        new.body = [ast.Assign(targets=[ast.Name(id="__gen", ctx=ast.Store())], value=ast.List(elts=[], ctx=ast.Load()),
+                               lineno=fn.lineno)] + new.body + [ast.Return(value=ast.Name(id="__gen", ctx=ast.Load()))]
+        ast.fix_missing_locations(new)
+        cls._GEN_CACHE[k] = new
+        return new
+
     def apply_def(self, fn, closure_env: Env, ctx, args, kwargs):
+        fn = self._degenerate(fn)
         if self.inline_depth > MAX_INLINE:
             return ("unknown", f"inline depth exceeded at {getattr(fn, 'name', 'lambda')}")
         env = Env(closure_env)
@@ -1719,7 +1839,7 @@ class Interp:
         d = self.depth
         body_env = Env(env)
         elem = ("bv", d, 0)
-        while it[0] == "map" and it[1][0] == "lam" and it[1][1] == 1 and isinstance(st.target, ast.Name):
+        while it[0] == "map" and it[1][0] == "lam" and it[1][1] == 1:
             # for y in (f(e) for e in xs): ...   ==   for e in xs: y = f(e); ...
             elem = self.beta(it[1], [elem])
             it = it[2]
@@ -2045,11 +2165,25 @@ class Interp:
                 return lam[2]
             lvl = min(levels)
 
-        def rn(t):
+        # two phases, so that a bound variable occurring INSIDE an argument (an enclosing binder of the same level, met
+        # when a lambda reified early is applied inside a later binder) is never mistaken for one of this lambda's own
+        # parameters after a projection has been simplified: parameters -> unique markers -> arguments
+        Interp._beta_uid = getattr(Interp, "_beta_uid", 0) + 1
+        uid = Interp._beta_uid
+        marks = {i: ("sym", f"$beta{uid}_{i}") for i in range(len(args))}
+
+        def to_mark(t):
             if t[0] == "bv" and t[1] == lvl and t[2] < len(args):
-                return args[t[2]]
+                return marks[t[2]]
             return None
-        return subst_free(lam[2], lvl, rn)
+        body = subst_free(lam[2], lvl, to_mark)
+        back = {v: args[i] for i, v in marks.items()}
+
+        def to_arg(t):
+            if t[0] == "sym":
+                return back.get(t)
+            return None
+        return subst_free(body, lvl, to_arg)
 
     def attr(self, obj, name, ctx):
         v = nt_field(obj, name)
@@ -2242,6 +2376,11 @@ class Interp:
                 args = [a0] + list(args[1:])
             if q == "functools.partial" and args:
                 return Partial(args[0], args[1:], kwargs)
+            if q == "operator.attrgetter" and len(args) == 1 and not kwargs:
+                a0 = self.as_term(args[0])
+                if is_const(a0) and isinstance(a0[1], str) and "." not in a0[1]:
+                    d_ = self.depth
+                    return ("lam", 1, ("attr", ("bv", d_, 0), a0[1]), d_)
             if q in ("equinox.filter_jit", "jax.jit") and len(args) == 1 and not isinstance(args[0], tuple):
                 # compiling a callable does not change what it computes (what it CAPTURES at trace time is the
                 # business of C14's closure rule)
